@@ -284,6 +284,9 @@ func (c *cmp) compare(x *schema.X, e *yang.Entry) {
 		if src.Min != nil && (e.ListAttr == nil || e.ListAttr.MinElements != *src.Min) {
 			c.bad(x, "attr-min-elements", "%s: min-elements differs from the written %d", p, *src.Min)
 		}
+		if (src.Kind == "list" || src.Kind == "leaf-list") && (e.ListAttr == nil || e.ListAttr.OrderedByUser != src.OrdUser) {
+			c.bad(x, "attr-ordered-by", "%s: ordered by user %v, written %v", p, e.ListAttr != nil && e.ListAttr.OrderedByUser, src.OrdUser)
+		}
 		c.Attrs++
 	}
 	if x.T != nil {
@@ -1177,6 +1180,12 @@ func Run(j *job.Job, s *job.Sink) {
 				}
 			}()
 			ms := yang.NewModules()
+			// One set in three keeps a record of its uses statements on the entries
+			// (ParseOptions.StoreUses): a record, nothing else - the trees are the same.
+			if len(cs.Files) > 0 && len(cs.Files[0].Text)%3 == 0 {
+				ms.ParseOptions.StoreUses = true
+				s.Count("sets_with_stored_uses", 1)
+			}
 			var errs []error
 			// One set in six is loaded the other way: the files are on disk in a search-path
 			// directory, only the modules nobody imports are read explicitly, and Process
@@ -1250,7 +1259,16 @@ func Run(j *job.Job, s *job.Sink) {
 					for _, f := range cs.Files {
 						if f.Name == lateMod.Name+".yang" {
 							hdr := fmt.Sprintf("  prefix %s;\n", lateMod.Prefix)
-							lateNew = strings.Replace(f.Text, hdr, hdr+"  revision 2020-02-02;\n", 1)
+							revs := "  revision 2020-02-02;\n"
+							switch len(f.Text) % 3 {
+							case 1:
+								// its revision statements stand oldest first, the first one older than
+								// the other revision loaded: the latest date counts, not the first statement
+								revs = "  revision 2018-01-01;\n  revision 2020-02-02;\n"
+							case 2:
+								revs = "  revision 2018-06-06;\n  revision 2020-02-02;\n  revision 2017-01-01;\n"
+							}
+							lateNew = strings.Replace(f.Text, hdr, hdr+revs, 1)
 							old := fmt.Sprintf("module %s {\n  namespace %q;\n  prefix %s;\n  revision 2019-01-01;\n", lateMod.Name, lateMod.NS, lateMod.Prefix)
 							for _, td := range lateMod.Body.Typedefs {
 								old += fmt.Sprintf("  typedef %s { type boolean; }\n", td.Name)
